@@ -89,6 +89,8 @@ Verdict judge(const Case& c) {
   v.nontrivial = degenerate(all);
 
   int route = (int)c.I("route", 0);
+  bool rev = c.I("rev", 0) != 0;   // ReverseSolution: every selected cell is then covered -1 times
+  if (rev) ST.count("reverse_solution");
   ST.count("route_" + std::to_string(route));
   static const ClipType cts[] = {ClipType::Intersection, ClipType::Union, ClipType::Difference, ClipType::Xor};
   static const FillRule frs[] = {FillRule::EvenOdd, FillRule::NonZero, FillRule::Positive, FillRule::Negative};
@@ -99,17 +101,18 @@ Verdict judge(const Case& c) {
         // (default options, i.e. only when PreserveCollinear is on)
         Paths64 sol;
         bool ok = true;
-        if (route == 2 && pc != 0) sol = BooleanOp(ct, fr, subj, clip);
+        if (route == 2 && pc != 0 && !rev) sol = BooleanOp(ct, fr, subj, clip);
         else {
           Clipper64 cl;
           cl.PreserveCollinear(pc != 0);
+          cl.ReverseSolution(rev);
           cl.AddSubject(subj);
           cl.AddClip(clip);
           if (route == 1) { PolyTree64 t; ok = cl.Execute(ct, fr, t); sol = PolyTreeToPaths64(t); }
           else ok = cl.Execute(ct, fr, sol);
         }
         v.evals++;
-        std::string cfg = std::string(" [") + O::ctName(ct) + "," + O::frName(fr) + ",pc=" + std::to_string(pc) + "]";
+        std::string cfg = std::string(" [") + O::ctName(ct) + "," + O::frName(fr) + ",pc=" + std::to_string(pc) + (rev ? ",rev=1" : "") + "]";
         if (!ok) { v.fail("Execute returned false" + cfg); return v; }
         // (iv) every solution edge axis-parallel, (iii) coordinates from the input sets
         if (!rectilinear(sol)) { v.fail("solution edge not axis-parallel" + cfg); return v; }
@@ -126,15 +129,15 @@ Verdict judge(const Case& c) {
           for (size_t j = 0; j < ny; ++j) {
             bool sel = O::op(ct, O::filled(fr, ws[i * ny + j]), O::filled(fr, wc[i * ny + j]));
             int cov = cellWinding(sol, xs[i], ys[j], ys[j + 1]);
-            if (cov != (sel ? 1 : 0)) {
+            if (cov != (sel ? (rev ? -1 : 1) : 0)) {
               v.fail("cell [" + std::to_string(xs[i]) + "," + std::to_string(xs[i + 1]) + "]x[" +
                      std::to_string(ys[j]) + "," + std::to_string(ys[j + 1]) + "] covered " + std::to_string(cov) +
-                     " times, expected " + std::to_string(sel ? 1 : 0) + cfg);
+                     " times, expected " + std::to_string(sel ? (rev ? -1 : 1) : 0) + cfg);
               return v;
             }
             if (sel) expectArea += ((i128)xs[i + 1] - xs[i]) * ((i128)ys[j + 1] - ys[j]);
           }
-        if (O::area2(sol) != 2 * expectArea) { v.fail("solution area differs from the exact area" + cfg); return v; }
+        if (O::area2(sol) != (rev ? -2 : 2) * expectArea) { v.fail("solution area differs from the exact area" + cfg); return v; }
       }
   if (v.nontrivial) ST.count("nontrivial_degenerate_input");
   ST.count("cells", nx * ny);
@@ -147,6 +150,7 @@ Case genRandom() {
   c.p["subj"] = GEN::rectPaths(L, 1, 3);
   c.p["clip"] = GEN::rectPaths(L, 0, 3);
   c.i["route"] = G::chance(60) ? 0 : G::range(1, 2);
+  c.i["rev"] = G::chance(20);
   ST.count(std::string("step_") + (L.step >= (int64_t(1) << 40) ? "huge" : L.step >= 1000 ? "large" : "small"));
   return c;
 }
